@@ -305,14 +305,20 @@ def run_c17(ctx):
         c = retgen.Counter()
         v = retgen.gen_value(t, rng, c, force="owned")
         cases.append((t, v, ["some", "once", "some", "n2"][(j + ctx.seed) % 4], False))
+    # and the same types with an owned leaf on the multi-use paths: every call must get the whole value again
+    n_forced_single = len(cases)
+    for j, t in enumerate(ownable):
+        c = retgen.Counter()
+        v = retgen.gen_value(t, rng, c, force="owned")
+        cases.append((t, v, ["each", "n2", "al1"][(j + ctx.seed) % 3], False))
     k = 0
-    while len(cases) < n + len(ownable):
+    while len(cases) < n + 2 * len(ownable):
         # reference-carrying types dominate; every accepted one is visited in turn
         t = with_ref[k % len(with_ref)] if k % 4 != 3 else owned_only[(k // 4) % len(owned_only)]
         c = retgen.Counter()
         force = "first" if (k // len(with_ref)) % 3 == 0 else None
         v = retgen.gen_value(t, rng, c, force=force)
-        mode = retgen.MODES[(k + k // len(with_ref)) % 4]
+        mode = retgen.MODES[(k + k // len(with_ref)) % len(retgen.MODES)]
         # every fifth reference-carrying case ties its borrows to self through a named lifetime
         named = retgen.has_ref(t) and "static_str" not in json.dumps(t) and k % 5 == 2
         cases.append((t, v, mode, named))
@@ -342,7 +348,7 @@ def run_c17(ctx):
                   "named_self_lifetime" if named else "elided_lifetime",
                   "owned_leaf_in_value" if exps[i]["owned_leaves"] else "borrowed_only_value"]:
             feats[f] = feats.get(f, 0) + 1
-    for f in ["mode_some", "mode_each", "mode_once", "mode_n2", "top_opt", "top_res", "top_vec", "top_poll", "top_tup",
+    for f in ["mode_some", "mode_each", "mode_once", "mode_n2", "mode_al1", "top_opt", "top_res", "top_vec", "top_poll", "top_tup",
               "with_ref", "owned_only", "owned_leaf_in_value", "borrowed_only_value", "named_self_lifetime"]:
         ctx.require(feats.get(f, 0) > 0, f"no return case with {f}")
     ctx.coverage.update({
